@@ -3,15 +3,6 @@
 From KV Require Export Res.Image Res.Selector Res.Replica Res.Replacement.
 From KV Require Import Corr.C14.   (* oclass_eqb, mism_from *)
 
-Definition ptab := list (string * option re).      (* regexp.Compile results for the pattern texts of a case *)
-
-Fixpoint ptab_get (p : string) (t : ptab) : option re :=
-  match t with
-  | [] => None
-  | (k, r) :: t' => if String.eqb k p then r else ptab_get p t'
-  end.
-Definition parse_of (t : ptab) : string -> option re := fun p => ptab_get p t.
-
 Definition cs_of (l : list gvk) : gvk -> bool := fun g => existsb (gvk_eqb g) l.
 Definition nonstr_of (l : list string) : string -> bool := fun s => str_in s l.
 
